@@ -197,4 +197,221 @@ theorem reaction_reserialise' (c : L0) (h : ReactionWF c) : reactionToDict (rp0 
   rw [this]
   exact reaction_reserialise us l s p vkf vkr hf hr
 
+/-! ## graph nodes and edges: `units` is written only when it differs from the graph's -/
+
+def nodeObj (us : Sys) (vol : UVal) (env : Int) : L0 :=
+  [("units_system", .sys us), ("volume", .qty vol), ("environment", .int env)]
+
+def NodeWF (c : L0) : Prop :=
+  ∃ us vol env, c = nodeObj us vol env ∧ us.valid = true ∧ vol.u.sys.valid = true ∧ vol.u.dim = Dim.volume
+
+theorem nodeFields_eq : nodeFields =
+    [⟨"volume", "volume", .qty Dim.volume, some (.num 1)⟩, ⟨"environment", "environment", .int, some (.num 0)⟩] := by rfl
+
+/-- a node with its own units system or with the graph's (then `units` is omitted and inherited back) -/
+theorem node_roundtrip (parent : Sys) (c : L0) (h : NodeWF c) :
+    nodeFromDict parent (nodeToDict parent c) = .ok (rp0 c) := by
+  obtain ⟨us, vol, env, rfl, hus, hv, hd⟩ := h
+  unfold nodeFromDict nodeToDict
+  rw [nodeFields_eq]
+  let g : Field → Val Empty := fun f => if f.param == "volume" then .qty (reparse vol) else .int env
+  have hfields : ∀ (d : KV) f, f ∈ ([⟨"volume", "volume", .qty Dim.volume, some (.num 1)⟩,
+      ⟨"environment", "environment", .int, some (.num 0)⟩] : List Field) →
+      readKind (⟨us, none, fun _ => none, noChild⟩ : Ctx Empty) d f.kind
+        (writeVal noWrite (((nodeObj us vol env).lookup f.param).getD .none)) = .ok (g f) := by
+    intro d f hfm
+    simp only [List.mem_cons, List.not_mem_nil, or_false] at hfm
+    rcases hfm with rfl | rfl
+    · exact readKind_qty_write _ _ _ noWrite vol (printable_of_valid _ hv) hd
+    · exact readKind_int _ _ noWrite env
+  by_cases hp : parent = us
+  · subst hp
+    have := generic_roundtrip DictKeys.node _ [] (some parent) parent none (fun _ => none) noChild noWrite
+      (nodeObj parent vol env) g ["volume", "environment"]
+      (by simp [writtenKV, nodeObj, objSys]) (by decide +kernel) (by decide +kernel) (by decide +kernel)
+      (by simp [writtenKV, nodeObj, objSys, List.lookup, readUnits]; rfl) (hfields _)
+    rw [this]; rfl
+  · have hne : (some parent == some us) = false := by simpa using hp
+    have := generic_roundtrip DictKeys.node _ [] (some parent) parent none (fun _ => none) noChild noWrite
+      (nodeObj us vol env) g ["units", "volume", "environment"]
+      (by simp [writtenKV, nodeObj, objSys, hne]) (by decide +kernel) (by decide +kernel) (by decide +kernel)
+      (by
+        have : (writtenKV ([⟨"volume", "volume", .qty Dim.volume, some (.num 1)⟩,
+          ⟨"environment", "environment", .int, some (.num 0)⟩] : List Field) [] (some parent) noWrite (nodeObj us vol env)).lookup "units"
+            = some (sysToJson us) := by simp [writtenKV, nodeObj, objSys, hne, List.lookup]
+        rw [this]; exact readUnits_write parent _ us hus) (hfields _)
+    rw [this]; rfl
+
+theorem node_reserialise (parent : Sys) (c : L0) (h : NodeWF c) : nodeToDict parent (rp0 c) = nodeToDict parent c := by
+  obtain ⟨us, vol, env, rfl, _, hv, _⟩ := h
+  unfold nodeToDict
+  rw [nodeFields_eq]
+  refine toDictG_reparse _ _ _ _ _ _ ?_
+  intro f hfm
+  simp only [List.mem_cons, List.not_mem_nil, or_false] at hfm
+  rcases hfm with rfl | rfl
+  · exact (quantity_physical vol hv).2.2.2
+  · rfl
+
+def edgeObj (us : Sys) (i j : Int) (surf dist : UVal) : L0 :=
+  [("units_system", .sys us), ("i", .ints [i, j]), ("surface", .qty surf), ("distance", .qty dist)]
+
+def EdgeWF (c : L0) : Prop :=
+  ∃ us i j surf dist, c = edgeObj us i j surf dist ∧ us.valid = true ∧ surf.u.sys.valid = true ∧ surf.u.dim = Dim.surface ∧
+    dist.u.sys.valid = true ∧ dist.u.dim = Dim.length
+
+theorem edgeFields_eq : edgeFields =
+    [⟨"nodes", "i", .intPair, none⟩, ⟨"surface", "surface", .qty Dim.surface, some (.num 1)⟩,
+     ⟨"distance", "distance", .qty Dim.length, some (.num 1)⟩] := by rfl
+
+/-- an edge with its own units system (seeded fix10 / independent mutation m2) or with the graph's -/
+theorem edge_roundtrip (parent : Sys) (c : L0) (h : EdgeWF c) :
+    edgeFromDict parent (edgeToDict parent c) = .ok (rp0 c) := by
+  obtain ⟨us, i, j, surf, dist, rfl, hus, hs, hsd, hdv, hdd⟩ := h
+  unfold edgeFromDict edgeToDict
+  rw [edgeFields_eq]
+  let g : Field → Val Empty := fun f =>
+    if f.param == "i" then .ints [i, j] else if f.param == "surface" then .qty (reparse surf) else .qty (reparse dist)
+  have hfields : ∀ (d : KV) f, f ∈ ([⟨"nodes", "i", .intPair, none⟩, ⟨"surface", "surface", .qty Dim.surface, some (.num 1)⟩,
+      ⟨"distance", "distance", .qty Dim.length, some (.num 1)⟩] : List Field) →
+      readKind (⟨us, none, fun _ => none, noChild⟩ : Ctx Empty) d f.kind
+        (writeVal noWrite (((edgeObj us i j surf dist).lookup f.param).getD .none)) = .ok (g f) := by
+    intro d f hfm
+    simp only [List.mem_cons, List.not_mem_nil, or_false] at hfm
+    rcases hfm with rfl | rfl | rfl
+    · exact readKind_intPair _ _ noWrite i j
+    · exact readKind_qty_write _ _ _ noWrite surf (printable_of_valid _ hs) hsd
+    · exact readKind_qty_write _ _ _ noWrite dist (printable_of_valid _ hdv) hdd
+  by_cases hp : parent = us
+  · subst hp
+    have := generic_roundtrip DictKeys.edge _ [] (some parent) parent none (fun _ => none) noChild noWrite
+      (edgeObj parent i j surf dist) g ["nodes", "surface", "distance"]
+      (by simp [writtenKV, edgeObj, objSys]) (by decide +kernel) (by decide +kernel) (by decide +kernel)
+      (by simp [writtenKV, edgeObj, objSys, List.lookup, readUnits]; rfl) (hfields _)
+    rw [this]; rfl
+  · have hne : (some parent == some us) = false := by simpa using hp
+    have := generic_roundtrip DictKeys.edge _ [] (some parent) parent none (fun _ => none) noChild noWrite
+      (edgeObj us i j surf dist) g ["units", "nodes", "surface", "distance"]
+      (by simp [writtenKV, edgeObj, objSys, hne]) (by decide +kernel) (by decide +kernel) (by decide +kernel)
+      (by
+        have : (writtenKV ([⟨"nodes", "i", .intPair, none⟩, ⟨"surface", "surface", .qty Dim.surface, some (.num 1)⟩,
+          ⟨"distance", "distance", .qty Dim.length, some (.num 1)⟩] : List Field) [] (some parent) noWrite
+            (edgeObj us i j surf dist)).lookup "units" = some (sysToJson us) := by
+          simp [writtenKV, edgeObj, objSys, hne, List.lookup]
+        rw [this]; exact readUnits_write parent _ us hus) (hfields _)
+    rw [this]; rfl
+
+theorem edge_reserialise (parent : Sys) (c : L0) (h : EdgeWF c) : edgeToDict parent (rp0 c) = edgeToDict parent c := by
+  obtain ⟨us, i, j, surf, dist, rfl, _, hs, _, hdv, _⟩ := h
+  unfold edgeToDict
+  rw [edgeFields_eq]
+  refine toDictG_reparse _ _ _ _ _ _ ?_
+  intro f hfm
+  simp only [List.mem_cons, List.not_mem_nil, or_false] at hfm
+  rcases hfm with rfl | rfl | rfl
+  · rfl
+  · exact (quantity_physical surf hs).2.2.2
+  · exact (quantity_physical dist hdv).2.2.2
+
+/-! ## network: species and reactions with their own units systems, environments, label validity -/
+
+abbrev rp1 : L1 → L1 := reparseObj rp0
+
+def networkObj (us : Sys) (sp rs : List L0) (envs : List String) : L1 :=
+  [("units_system", .sys us), ("species", .children sp), ("reactions", .children rs), ("environments", .strs envs)]
+
+theorem networkFields_eq : networkFields =
+    [⟨"species", "species", .children "species", none⟩, ⟨"reactions", "reactions", .children "reaction", some (.arr [])⟩,
+     ⟨"environments", "environments", .strList, some (.arr [.str ""])⟩] := by rfl
+
+def NetworkWF (o : L1) : Prop :=
+  ∃ us sp rs envs, o = networkObj us sp rs envs ∧ us.valid = true ∧ (∀ c ∈ sp, SpeciesWF c) ∧ (∀ c ∈ rs, ReactionWF c) ∧
+    envs ≠ [] ∧ (∀ e ∈ envs, (e == "default") = false) ∧
+    networkValid (sp.map labelOf) (rs.map labelOf) (rs.flatMap sidesOf) = true
+
+theorem writeL0_species (us : Sys) (c : L0) (h : SpeciesWF c) : writeL0 us c = speciesToDict c := by
+  obtain ⟨_, _, _, _, _, rfl, _⟩ := h; rfl
+
+theorem writeL0_reaction (us : Sys) (c : L0) (h : ReactionWF c) : writeL0 us c = reactionToDict c := by
+  obtain ⟨_, _, _, _, _, _, rfl, _⟩ := h; rfl
+
+theorem level0Child_species (us : Sys) (b : Option String) (j : Json) : level0Child "species" us b j = speciesFromDict us j := rfl
+theorem level0Child_reaction (us : Sys) (b : Option String) (j : Json) : level0Child "reaction" us b j = reactionFromDict us j := rfl
+theorem level0Child_node (us : Sys) (b : Option String) (j : Json) : level0Child "node" us b j = nodeFromDict us j := rfl
+theorem level0Child_edge (us : Sys) (b : Option String) (j : Json) : level0Child "edge" us b j = edgeFromDict us j := rfl
+
+/-- `rdnetwork_from_dict(rdnetwork_to_dict(n))`: every species / reaction keeps its own units system, its
+per-environment dictionaries, labels and stoichiometry; quantities are re-read from their text -/
+theorem network_roundtrip (parent : Sys) (base : Option String) (fs : FS) (o : L1) (h : NetworkWF o) :
+    networkFromDict parent base fs (networkToDict o) = .ok (rp1 o) := by
+  obtain ⟨us, sp, rs, envs, rfl, hus, hsp, hrs, hne, hdef, hval⟩ := h
+  unfold networkFromDict networkToDict
+  rw [networkFields_eq]
+  have hsys : objSys (networkObj us sp rs envs) = us := rfl
+  rw [hsys]
+  let g : Field → Val L0 := fun f =>
+    if f.param == "species" then .children (sp.map rp0) else if f.param == "reactions" then .children (rs.map rp0) else .strs envs
+  have := generic_roundtrip DictKeys.network
+    [⟨"species", "species", .children "species", none⟩, ⟨"reactions", "reactions", .children "reaction", some (.arr [])⟩,
+     ⟨"environments", "environments", .strList, some (.arr [.str ""])⟩]
+    [] none parent base fs level0Child (writeL0 us) (networkObj us sp rs envs) g
+    ["units", "species", "reactions", "environments"] rfl (by decide +kernel) (by decide +kernel) (by decide +kernel)
+    (readUnits_write parent _ us hus) (by
+      intro f hfm
+      simp only [List.mem_cons, List.not_mem_nil, or_false] at hfm
+      rcases hfm with rfl | rfl | rfl
+      · refine readKind_children _ _ (writeL0 us) "species" sp rp0 ?_
+        intro c hc
+        show level0Child "species" us base (writeL0 us c) = _
+        rw [writeL0_species us c (hsp c hc), level0Child_species]
+        exact species_roundtrip' us c (hsp c hc)
+      · refine readKind_children _ _ (writeL0 us) "reaction" rs rp0 ?_
+        intro c hc
+        show level0Child "reaction" us base (writeL0 us c) = _
+        rw [writeL0_reaction us c (hrs c hc), level0Child_reaction]
+        exact reaction_roundtrip' us c (hrs c hc)
+      · exact readKind_strList _ _ (writeL0 us) envs hne hdef)
+  rw [this]
+  have hl : ∀ l : List L0, (l.map rp0).map labelOf = l.map labelOf := by
+    intro l; rw [List.map_map]; apply List.map_congr_left; intro c _; exact labelOf_reparseObj _ c
+  have hs : (rs.map rp0).flatMap sidesOf = rs.flatMap sidesOf := by
+    rw [List.flatMap_map]; congr 1; funext c; exact sidesOf_reparseObj _ c
+  show (if networkValid ((sp.map rp0).map labelOf) ((rs.map rp0).map labelOf) ((rs.map rp0).flatMap sidesOf) then _ else _) = _
+  rw [hl, hl, hs, hval]
+  rfl
+
+theorem network_reserialise (o : L1) (h : NetworkWF o) : networkToDict (rp1 o) = networkToDict o := by
+  obtain ⟨us, sp, rs, envs, rfl, _, hsp, hrs, _, _, _⟩ := h
+  unfold networkToDict
+  rw [networkFields_eq, objSys_reparseObj]
+  have hsys : objSys (networkObj us sp rs envs) = us := rfl
+  rw [hsys]
+  refine toDictG_reparse _ _ _ _ _ _ ?_
+  intro f hfm
+  simp only [List.mem_cons, List.not_mem_nil, or_false] at hfm
+  rcases hfm with rfl | rfl | rfl
+  · show Json.arr _ = Json.arr _
+    congr 1
+    rw [List.map_map]
+    apply List.map_congr_left
+    intro c hc
+    simp only [Function.comp]
+    have hw : SpeciesWF (rp0 c) → writeL0 us (rp0 c) = speciesToDict (rp0 c) := writeL0_species us _
+    obtain ⟨us', l, vD, vρ, vc, rfl, hus', hl, hD, hρ, hvc⟩ := hsp c hc
+    have e : writeL0 us (rp0 (speciesObj' us' l vD vρ vc)) = speciesToDict (rp0 (speciesObj' us' l vD vρ vc)) := by
+      rcases hvc with ⟨b, rfl⟩ | ⟨kv, rfl⟩ <;> rfl
+    rw [e, species_reserialise' _ ⟨us', l, vD, vρ, vc, rfl, hus', hl, hD, hρ, hvc⟩]
+    rfl
+  · show Json.arr _ = Json.arr _
+    congr 1
+    rw [List.map_map]
+    apply List.map_congr_left
+    intro c hc
+    simp only [Function.comp]
+    obtain ⟨us', l, s, p, vkf, vkr, rfl, hus', hl, hf, hr⟩ := hrs c hc
+    have e : writeL0 us (rp0 (reactionObj us' l s p vkf vkr)) = reactionToDict (rp0 (reactionObj us' l s p vkf vkr)) := rfl
+    rw [e, reaction_reserialise' _ ⟨us', l, s, p, vkf, vkr, rfl, hus', hl, hf, hr⟩]
+    rfl
+  · rfl
+
 end Strengths.C12
